@@ -16,6 +16,7 @@ type pauseManager struct {
 	subscribers sync.Map // Map of *ControlChans to struct{}
 	isPaused    atomic.Bool
 	message     string
+	resumeMu    sync.Mutex // Serializes Resume calls
 }
 
 var manager = &pauseManager{}
@@ -70,6 +71,14 @@ func Pause(message ...string) {
 
 // Resume reads from each subscriber's ResumeCh to unblock them.
 func Resume() {
+	// Subscribers only send on their ResumeCh after they received a pause signal: waiting for
+	// them when nothing is paused (unmatched or concurrent Resume calls) would block forever.
+	manager.resumeMu.Lock()
+	defer manager.resumeMu.Unlock()
+	if !manager.isPaused.Load() {
+		return
+	}
+
 	var wg sync.WaitGroup
 	manager.subscribers.Range(func(key, _ interface{}) bool {
 		chans := key.(*ControlChans)
